@@ -22,6 +22,14 @@ COOL = {"tidd_cdd", "tidd_cdd_smooth", "hdd_tidd_cdd", "hdd_tidd_cdd_smooth"}
 def build(case):
     rng = np.random.default_rng(case["seed"])
     n = case["n_days"]
+    if case.get("generator") == "v_home":
+        # a weak V-shaped response: heating and cooling slopes of similar size meeting at ONE balance temperature, additive noise -- the two break points of
+        # the initial two-sided fit end up close together and the optimiser may stop on a crossed pair
+        idx = pd.date_range("2019-01-01", periods=n, freq="D", tz="UTC")
+        doy = idx.dayofyear.values
+        T = 60.0 - 24.0 * np.cos(2 * np.pi * (doy - 15) / 365.0) + rng.normal(0, 4, n)
+        y = 12.0 + case["heat_slope"] * np.clip(62.0 - T, 0, None) + case["cool_slope"] * np.clip(T - 62.0, 0, None) + rng.normal(0, case["noise_abs"], n)
+        return pd.DataFrame({"temperature": T, "observed": np.clip(y, 0.1, None)}, index=idx)
     idx = pd.date_range(case.get("start", "2022-01-01"), periods=n, freq="D", tz=case.get("tz", "America/Chicago"))
     doy = idx.dayofyear.values
     T = case.get("T_mean", 55) + case.get("T_amp", 25) * np.sin((doy - 105) / 365 * 2 * np.pi) + rng.normal(0, case.get("T_noise", 5), n)
@@ -54,7 +62,11 @@ def fit_one(case):
             m = em.BillingModel().fit(data, ignore_disqualification=True)
         else:
             data = em.DailyBaselineData(df, is_electricity_data=True)
-            m = em.DailyModel(model=case.get("profile", "current")).fit(data, ignore_disqualification=True)
+            m = em.DailyModel(model=case.get("profile", "current"))
+            if case.get("refit_after"):
+                # ONE model object, fitted on another home first (a warmer climate, other usage)
+                m.fit(em.DailyBaselineData(build(dict(case, **case["refit_after"], refit_after=None)), is_electricity_data=True), ignore_disqualification=True)
+            m = m.fit(data, ignore_disqualification=True)
     except Exception as e:  # noqa
         import traceback
         return {"ok": False, "problems": [f"fit failed: {type(e).__name__}: {e}", traceback.format_exc()[-500:]]}
@@ -101,6 +113,14 @@ def fit_one(case):
                 bad.append(f"{key}: base load {c['intercept']} outside the observed usage range [{np.min(comp.obs)}, {np.max(comp.obs)}]")
             if not (np.isclose(T_min, np.min(comp.T), rtol=0, atol=1e-9) and np.isclose(T_max, np.max(comp.T), rtol=0, atol=1e-9)):
                 bad.append(f"{key}: recorded temperature limits [{T_min}, {T_max}] are not those of the days fitted on [{np.min(comp.T)}, {np.max(comp.T)}]")
+    if case["family"] != "billing":
+        # the days the kept components were fitted on are the days of the baseline handed to fit()
+        Tb = data.df["temperature"].astype(float)
+        Tb = Tb[np.isfinite(Tb) & np.isfinite(data.df["observed"].astype(float))]
+        Tc = np.sort(np.concatenate([np.asarray(c.T, dtype=float) for c in m.model.values() if c is not None]))
+        if len(Tc) != len(Tb) or not np.allclose(Tc, np.sort(Tb.values), rtol=0, atol=1e-9):
+            bad.append(f"the kept components were fitted on {len(Tc)} days spanning [{Tc.min() if len(Tc) else None}, {Tc.max() if len(Tc) else None}] F, the baseline given to fit() has "
+                       f"{len(Tb)} complete days spanning [{Tb.min()}, {Tb.max()}] F")
     curve_bad = []
     for where, comps in (("fit_components", m.fit_components), ("model", m.model)):
         for key, comp in comps.items():
@@ -172,6 +192,13 @@ def cases(tier, seed):
                     continue
                 c = dict(r, family=fam, profile=profile, n_days=n_days, seed=int(1000 * seed + k))
                 out.append(c)
+    # weak V-shaped homes under the legacy profile (the initial two-sided fit may stop on crossed break points)
+    for sd, n, hs, cs_, nz in ((102, 365, 0.3, 0.4, 3.0), (109, 335, 0.6, 0.6, 4.0), (122, 335, 0.6, 0.6, 4.0)) + (((131, 365, 0.5, 0.5, 3.5),) if tier == "thorough" else ()):
+        out.append({"name": "v_home", "generator": "v_home", "family": "daily", "profile": "legacy", "n_days": n, "seed": sd, "heat_slope": hs, "cool_slope": cs_, "noise_abs": nz,
+                    "base": 12, "heat_bp": 62, "cool_bp": 62})
+    # ONE model object fitted on a warm-climate home first, then on the recorded one
+    out.append(dict(regimes[0], family="daily", profile="current", n_days=365, seed=int(1000 * seed + 901),
+                    refit_after={"T_mean": 78, "T_amp": 14, "base": 35, "heat_slope": 0.0, "cool_slope": 1.6, "seed": int(1000 * seed + 902)}))
     return out
 
 
